@@ -19,18 +19,28 @@ from txlib import compact_size, ref_wire
 NET = {"btc": BTC, "ltc": LTC}
 
 MANIFEST = {
-    "text": "Lean theorems over models of merkle/merkle_pair and of post_unpack_merkleblock/_recurse: the loop equals the recursive "
-            "Bitcoin definition for every n>=1; the BIP37 builder's proof (spec written from Core) is accepted with exactly the matched "
-            "ids for every n and every subset; added/removed hashes, padding bits, root mismatch rejected; an accepted altered hash yields "
-            "an explicit hash collision. Models tied to the code by differential correspondence through merkle() and "
+    "text": "Lean theorems over models of merkle/merkle_pair, of post_unpack_merkleblock/_recurse and of Block.parse/stream/hash: the "
+            "merkle loop equals the recursive Bitcoin definition for every n>=1; the BIP37 builder's proof (spec written from Core) is "
+            "accepted with exactly the matched ids for every n and every subset; added/removed hashes, padding bits, root mismatch "
+            "rejected; an accepted altered hash yields an explicit hash collision; headers are exactly 80 bytes and round-trip; blocks "
+            "with >=1 transaction round-trip for every coin class; the id is the double SHA-256 of the 80 header bytes; a block whose "
+            "header root differs from the merkle root of its transactions raises BadMerkleRootError. Models tied to the code by "
+            "differential correspondence through merkle(), Block.from_bin/as_bin/id/parse_as_header (BTC and LTC classes) and "
             "network.message.parse('merkleblock', ..) on every run.",
-    "note": "double_sha256 is a function symbol in the theorems; the Lean SHA-256 model is validated against hashlib by correspondence.",
-    "technique": "Lean 4 proof (induction over tree height on an executable model) + differential correspondence model vs implementation",
+    "note": "double_sha256 is a function symbol in the theorems; the Lean SHA-256 model is validated against hashlib by correspondence. "
+            "Transactions inside blocks rely on the C07 transaction model and its prefix-parser law.",
+    "technique": "Lean 4 proof (induction over tree height / prefix-parser law on an executable model) + differential correspondence "
+                 "model vs implementation + independent reference builder and encoders in the harness",
 }
-RULE = ("ops merkle/merkle_spec/pmt_build/pmt_verify; boundary corpus (every n in 1..17 x matched subsets incl. right-edge leaves, "
-        "every single-position corruption of small proofs) + seeded random trees; distinct = distinct op line; trivial = nothing matched")
+RULE = ("ops merkle/merkle_spec/pmt_build/pmt_verify/block_rt/header_rt; boundary corpus (every n in 1..17 x matched subsets incl. "
+        "right-edge leaves, every single-position corruption of small proofs, all subsets for n<=6 (thorough: n<=11), blocks of "
+        "1..33 transactions across powers of two and odd sizes for BTC and LTC, tampered blocks) + seeded random trees/blocks; "
+        "distinct = distinct op line; trivial = nothing matched / correspondence-only malformed blocks")
 ASSUMPTIONS = ["hashlib.sha256 modelled by Pycoin.Hash.sha256 (validated by correspondence on every op that hashes)",
-               "hashes reach post_unpack_merkleblock through the '#' codec, i.e. as 32-byte strings"]
+               "hashes reach post_unpack_merkleblock through the '#' codec, i.e. as 32-byte strings",
+               "honest-proof acceptance is claimed for blocks without two equal sibling nodes (pycoin raises on equal siblings)",
+               "LTC MWEB data (flag 0x08 / bytes after the last transaction) is read and dropped by LTCTx.parse / Block.parse: "
+               "byte-level round trip is claimed for non-MWEB blocks only"]
 KNOWN: dict = {}
 
 
